@@ -180,7 +180,7 @@ fn k_mtrl_sampler() {
 
 fn nmt_half(v: f32) -> [u8; 2] { half::f16::from_f32(v).to_bits().to_le_bytes() }
 fn nmt_val(row: usize, k: usize, per_row: usize) -> f32 { (row * per_row + k) as f32 / 4.0 }
-struct NmtSpec { dawntrail: bool, textures: Vec<&'static str>, keys: Vec<(u32, u32)>, constants: Vec<(u32, Vec<f32>)>, samplers: Vec<(u32, u32, u8)>, dye: bool, explicit_dims: bool }
+struct NmtSpec { dawntrail: bool, textures: Vec<&'static str>, keys: Vec<(u32, u32)>, constants: Vec<(u32, Vec<f32>)>, samplers: Vec<(u32, u32, u8)>, dye: bool, explicit_dims: bool, /* 0 = values stored in listing order, 1 = stored in reverse listing order, 2 = every constant reads from offset 0 of one shared run */ layout: u8 }
 /// a material packed by hand in the order the format stores it
 fn nmt_material(sp: &NmtSpec) -> Vec<u8> {
     let mut strings: Vec<u8> = vec![]; let mut tex_off = vec![];
@@ -206,27 +206,35 @@ fn nmt_material(sp: &NmtSpec) -> Vec<u8> {
         if is_int { o.extend_from_slice(&((r * 7 + k) as u16).to_le_bytes()); } else { o.extend_from_slice(&nmt_half(nmt_val(r, k, per_row))); }
     } }
     if sp.dye { for r in 0..rows { if sp.dawntrail { o.extend_from_slice(&(((r as u32 * 67 + 5) & 0x7FF) << 16 | ((r as u32 % 4) << 27) | ((r as u32 * 0x1A5 + 1) & 0xFFF)).to_le_bytes()); } else { o.extend_from_slice(&((((r as u16 * 37 + 3) & 0x7FF) << 5) | (r as u16 % 32)).to_le_bytes()); } } }
-    let values: Vec<f32> = sp.constants.iter().flat_map(|c| c.1.iter().cloned()).collect();
+    // value storage: the constant entries carry explicit byte offsets, so storage order is independent of listing order
+    let (values, offs): (Vec<f32>, Vec<u16>) = match sp.layout {
+        1 => { let mut v = vec![]; let mut offs = vec![0u16; sp.constants.len()];
+               for (i, c) in sp.constants.iter().enumerate().rev() { offs[i] = (v.len() * 4) as u16; v.extend(c.1.iter().cloned()); } (v, offs) }
+        2 => { let longest = sp.constants.iter().map(|c| c.1.clone()).max_by_key(|v| v.len()).unwrap_or_default(); (longest, vec![0u16; sp.constants.len()]) }
+        _ => { let mut v = vec![]; let mut offs = vec![]; for c in sp.constants.iter() { offs.push((v.len() * 4) as u16); v.extend(c.1.iter().cloned()); } (v, offs) }
+    };
     o.extend_from_slice(&((values.len() * 4) as u16).to_le_bytes()); o.extend_from_slice(&(sp.keys.len() as u16).to_le_bytes());
     o.extend_from_slice(&(sp.constants.len() as u16).to_le_bytes()); o.extend_from_slice(&(sp.samplers.len() as u16).to_le_bytes()); o.extend_from_slice(&0x11u32.to_le_bytes());
     for (c, v) in sp.keys.iter() { o.extend_from_slice(&c.to_le_bytes()); o.extend_from_slice(&v.to_le_bytes()); }
-    let mut at = 0u16;
-    for (id, vals) in sp.constants.iter() { o.extend_from_slice(&id.to_le_bytes()); o.extend_from_slice(&at.to_le_bytes()); o.extend_from_slice(&((vals.len() * 4) as u16).to_le_bytes()); at += (vals.len() * 4) as u16; }
+    for (k, (id, vals)) in sp.constants.iter().enumerate() { o.extend_from_slice(&id.to_le_bytes()); o.extend_from_slice(&offs[k].to_le_bytes()); o.extend_from_slice(&((vals.len() * 4) as u16).to_le_bytes()); }
     for (usage, fl, ti) in sp.samplers.iter() { o.extend_from_slice(&usage.to_le_bytes()); o.extend_from_slice(&fl.to_le_bytes()); o.push(*ti); o.extend_from_slice(&[0u8; 3]); }
     for v in values.iter() { o.extend_from_slice(&v.to_le_bytes()); }
     o
 }
 fn nmt_specs() -> Vec<NmtSpec> {
     vec![
-        NmtSpec { dawntrail: false, textures: vec![], keys: vec![], constants: vec![], samplers: vec![], dye: false, explicit_dims: false },
-        NmtSpec { dawntrail: false, textures: vec!["chara/equipment/e0001/texture/v01_c0101e0001_top_n.tex", "chara/common/texture/-tile_d.tex"], keys: vec![(0xB616DC5A, 0x5CC605B5)], constants: vec![(0x29AC0223, vec![0.5]), (0x575ABFB2, vec![1.0, 2.0, 3.0, 4.0])], samplers: vec![(0x0C5EC1F1, 0x000F8340, 0), (0x115306BE, 0x2, 1)], dye: true, explicit_dims: false },
-        NmtSpec { dawntrail: true, textures: vec!["bg/ex5/01_xkt_x6/common/texture/x6a0_b0_flor1_d.tex"], keys: vec![(1, 2), (3, 4), (0xFFFFFFFF, 0)], constants: vec![(7, vec![1.5, -2.25]), (8, vec![0.0, 0.25, 1e9])], samplers: vec![(0x8A4E82B6, 7, 0)], dye: true, explicit_dims: false },
-        NmtSpec { dawntrail: false, textures: vec!["legacy/with/explicit/4x16.tex"], keys: vec![(5, 6)], constants: vec![(11, vec![2.5, 3.5])], samplers: vec![(0x2B99E025, 1, 0)], dye: false, explicit_dims: true },
-        NmtSpec { dawntrail: true, textures: vec!["a.tex", "b.tex", "c.tex"], keys: vec![], constants: vec![(9, vec![3.0])], samplers: vec![], dye: false, explicit_dims: false },
+        NmtSpec { dawntrail: false, textures: vec![], keys: vec![], constants: vec![], samplers: vec![], dye: false, explicit_dims: false, layout: 0 },
+        NmtSpec { dawntrail: false, textures: vec!["chara/equipment/e0001/texture/v01_c0101e0001_top_n.tex", "chara/common/texture/-tile_d.tex"], keys: vec![(0xB616DC5A, 0x5CC605B5)], constants: vec![(0x29AC0223, vec![0.5]), (0x575ABFB2, vec![1.0, 2.0, 3.0, 4.0])], samplers: vec![(0x0C5EC1F1, 0x000F8340, 0), (0x115306BE, 0x2, 1)], dye: true, explicit_dims: false, layout: 0 },
+        NmtSpec { dawntrail: true, textures: vec!["bg/ex5/01_xkt_x6/common/texture/x6a0_b0_flor1_d.tex"], keys: vec![(1, 2), (3, 4), (0xFFFFFFFF, 0)], constants: vec![(7, vec![1.5, -2.25]), (8, vec![0.0, 0.25, 1e9])], samplers: vec![(0x8A4E82B6, 7, 0)], dye: true, explicit_dims: false, layout: 0 },
+        NmtSpec { dawntrail: false, textures: vec!["legacy/with/explicit/4x16.tex"], keys: vec![(5, 6)], constants: vec![(11, vec![2.5, 3.5])], samplers: vec![(0x2B99E025, 1, 0)], dye: false, explicit_dims: true, layout: 0 },
+        NmtSpec { dawntrail: true, textures: vec!["a.tex", "b.tex", "c.tex"], keys: vec![], constants: vec![(9, vec![3.0])], samplers: vec![], dye: false, explicit_dims: false, layout: 0 },
+        // constants whose values are NOT stored in listing order (reverse storage) and constants sharing one run of values (prefixes of [6, 7, 8, 9])
+        NmtSpec { dawntrail: false, textures: vec!["r.tex"], keys: vec![], constants: vec![(21, vec![1.0, 2.0]), (22, vec![3.0]), (23, vec![4.0, 5.0, 6.0, 7.0])], samplers: vec![], dye: false, explicit_dims: false, layout: 1 },
+        NmtSpec { dawntrail: true, textures: vec![], keys: vec![(1, 1)], constants: vec![(31, vec![6.0, 7.0]), (32, vec![6.0, 7.0, 8.0, 9.0]), (33, vec![6.0])], samplers: vec![], dye: false, explicit_dims: false, layout: 2 },
     ]
 }
 
-//@unit props=C14 label=B tier=quick native=1 fn=mtrl::Material::from_existing bound="by execution: 5 hand-packed materials (legacy 16-row colour tables with implicit and with explicit 4x16 dimension bits, Dawntrail 32-row colour tables with a distinct exactly-representable half in every slot, with and without dye tables, 0..3 textures, 0..3 keys, constants of 1..4 floats, 0..2 samplers)"
+//@unit props=C14 label=B tier=quick native=1 fn=mtrl::Material::from_existing bound="by execution: 7 hand-packed materials (constants stored in listing order, in reverse order and sharing one run of values; legacy 16-row colour tables with implicit and with explicit 4x16 dimension bits, Dawntrail 32-row colour tables with a distinct exactly-representable half in every slot, with and without dye tables, 0..3 textures, 0..3 keys, constants of 1..4 floats, 0..2 samplers)"
 //@desc the parsed material returns the shader package name, the texture paths in order, the keys, every constant with its own floats and count, the samplers, and every colour-table and dye-table row holds the values stored at its own position (row r, slot k)
 #[test]
 fn native_mtrl_parse() {
